@@ -82,6 +82,9 @@ class GetFieldName:
 
 @contract(f"{F}:_fields_set", props=["C15"])
 class FieldsSetGetter:
+    assumptions = [
+        "FIELDS_SET_ATTR is only ever stored in the instance dictionary (no class attribute / slot of that name), so getattr(obj, FIELDS_SET_ATTR) is a lookup in obj.__dict__; instances have a __dict__ (no __slots__)",
+    ]
     raises = ["TypeError"]
     dict_attrs = ["FIELDS_SET_ATTR"]
     globals = _G
@@ -186,6 +189,9 @@ def _old_setattr(ex, node, st):
 class NewSetattr:
     """obj.attr = value on a decorated object: the name joins the field set, then the attribute is stored"""
 
+    assumptions = [
+        "the __setattr__ wrapped by with_fields_set is object.__setattr__ (a store into the instance dictionary under the attribute name); the hidden attribute FIELDS_SET_ATTR is never assigned through setattr",
+    ]
     raises = ["RuntimeError"]
     free_vars = ["old_setattr"]
     globals = _GC
@@ -250,6 +256,9 @@ class NewInit:
     for a new object) plus the parameters passed positionally or by keyword, minus the InitVar
     pseudo-fields, plus the init=False and default_as_set fields"""
 
+    assumptions = [
+        "the __init__ wrapped by with_fields_set (dataclass-generated or user code) may store any attribute of self and may raise anything, but does not replace the FIELDS_SET_ATTR entry of the instance dictionary",
+    ]
     raises = ["RuntimeError", "Exception"]
     allow_star = True
     free_vars = ["old_init", "params", "init_fields", "post_init_fields"]
@@ -335,6 +344,9 @@ class NewNew:
     """allocation of a decorated object: the instance starts with an EMPTY field set (so that a
     subclass overriding __init__ can assign attributes before / without calling the wrapped __init__)"""
 
+    assumptions = [
+        "object.__new__(cls) / the wrapped __new__ return a fresh instance whose instance dictionary holds no field set yet",
+    ]
     raises: list = []
     allow_star = True
     free_vars = ["old_new"]
